@@ -5,6 +5,9 @@
 //!  {"a":"rewrite","f":F,"sid":n,"mode":"idx"|"noidx","ix":{"a.eq":slope,..},"rf":RF,"m":[ids],"mo":o}
 //!  F is the complete original filter (the ignore-hidden wrapper, when used, is spelled out in F).
 use crate::fmodel::*;
+use kanidm_proto::attribute::Attribute as PAttr;
+use kanidm_proto::scim_v1::{AttrPath, ScimFilter};
+use kanidmd_lib::filter::{Filter, FilterInvalid};
 use kanidmd_lib::prelude::*;
 use kanidmd_lib::value::IndexType;
 use kanidmd_lib::verif::filter as kvf;
@@ -43,6 +46,52 @@ fn random_ix(rng: &mut Rng) -> Vec<(String, u8)> {
     v
 }
 
+static SKIPPED: std::sync::atomic::AtomicU64 = std::sync::atomic::AtomicU64::new(0);
+
+fn has_sw_ew(f: &J) -> bool {
+    match f["k"].as_str().unwrap_or("") {
+        "stw" | "enw" => true,
+        "and" | "or" => f["fs"].as_array().map(|v| v.iter().any(has_sw_ew)).unwrap_or(false),
+        "not" => has_sw_ew(&f["f"]),
+        _ => false,
+    }
+}
+/// Starts-with / ends-with terms have no FC constructor: such filters are built through the SCIM translation
+/// (`Filter::from_scim_ro`: sw -> Stw, ew -> Enw, co -> Cnt, eq -> Eq, pr -> Pres, binary and / or, not).
+fn scim_of(f: &J) -> Result<ScimFilter, String> {
+    let a = f["a"].as_str().unwrap_or("a");
+    let path = || AttrPath { a: PAttr::from(attr(a).as_str()), s: None };
+    let ndl = |f: &J| json!(NEEDLES.get(f["v"].as_u64().unwrap_or(0) as usize).copied().unwrap_or("zzz"));
+    Ok(match f["k"].as_str().unwrap_or("") {
+        "stw" if a == "a" => ScimFilter::StartsWith(path(), ndl(f)),
+        "enw" if a == "a" => ScimFilter::EndsWith(path(), ndl(f)),
+        "sub" if a == "a" => ScimFilter::Contains(path(), ndl(f)),
+        "eq" if a == "a" => ScimFilter::Equal(path(), json!(STRS.get(f["v"].as_u64().unwrap_or(0) as usize).copied().unwrap_or("zzz"))),
+        "pres" => ScimFilter::Present(path()),
+        "not" => ScimFilter::Not(Box::new(scim_of(&f["f"])?)),
+        k @ ("and" | "or") => {
+            let fs = f["fs"].as_array().ok_or("fs")?;
+            if fs.len() != 2 {
+                return Err("scim and/or are binary".into());
+            }
+            let (l, r) = (Box::new(scim_of(&fs[0])?), Box::new(scim_of(&fs[1])?));
+            if k == "and" { ScimFilter::And(l, r) } else { ScimFilter::Or(l, r) }
+        }
+        o => return Err(format!("not expressible through SCIM: {o}")),
+    })
+}
+/// Model filter -> real filter. `And[hidden, x]` with a SCIM-built x is joined with `Filter::join_parts_and`.
+fn build_filter(rd: &mut QueryServerReadTransaction<'_>, ident: &Identity, f: &J) -> Result<Filter<FilterInvalid>, String> {
+    if !has_sw_ew(f) {
+        return filter_from_json(f, false);
+    }
+    if f["k"] == "and" && f["fs"].as_array().map(|v| v.len() == 2 && v[0] == hidden()).unwrap_or(false) {
+        let inner = build_filter(rd, ident, &f["fs"][1])?;
+        return Ok(Filter::join_parts_and(filter_from_json(&hidden(), false)?, inner));
+    }
+    Filter::from_scim_ro(ident, &scim_of(f)?, rd).map_err(|e| format!("from_scim_ro {e:?}"))
+}
+
 fn observe(
     rd: &mut QueryServerReadTransaction<'_>,
     tr: &mut Tracer,
@@ -52,12 +101,17 @@ fn observe(
     sid: u64,
     ix: Option<&[(String, u8)]>,
 ) {
-    let filt = match filter_from_json(f, false) {
-        Ok(x) => x,
-        Err(e) => tool_error(&format!("bad filter json: {e}")),
-    };
     let me = all.iter().find(|e| e.get_uuid() == uuid_e(sid)).cloned().unwrap_or_else(|| tool_error("self entry missing"));
     let ident = Identity::from_impersonate_entry_readwrite(me);
+    let filt = match build_filter(rd, &ident, f) {
+        Ok(x) => x,
+        // a TLC case with a starts-with / ends-with term inside a one-element AND / OR has no SCIM spelling: not replayed
+        Err(e) if e.contains("scim and/or are binary") => {
+            SKIPPED.fetch_add(1, std::sync::atomic::Ordering::Relaxed);
+            return;
+        }
+        Err(e) => tool_error(&format!("bad filter json: {e}")),
+    };
     let keys: Option<Vec<(Attribute, IndexType, u8)>> = ix.map(|v| {
         v.iter()
             .filter_map(|(k, s)| {
@@ -100,6 +154,58 @@ fn depth1_with_self() -> Vec<J> {
         }
     }
     out
+}
+
+/// The substring family with SHARED attribute and value: contains / starts-with / ends-with "ab" on `a` (entries hold "abx" and
+/// "xab": all three kinds differ on them) plus the same kinds on another needle and an equality.  Binary and / or and not only
+/// (what the SCIM translation can build); depth <= 2, so that flattening brings terms of different kinds next to each other.
+fn subfam(depth2: bool) -> Vec<J> {
+    let leaves: Vec<J> = vec![
+        json!({"k":"sub","a":"a","v":0}),
+        json!({"k":"stw","a":"a","v":0}),
+        json!({"k":"enw","a":"a","v":0}),
+    ];
+    let extra: Vec<J> = vec![json!({"k":"stw","a":"a","v":2}), json!({"k":"enw","a":"a","v":1}), json!({"k":"eq","a":"a","v":1})];
+    let comb = |s: &Vec<J>| -> Vec<J> {
+        let mut out = Vec::new();
+        for x in s {
+            out.push(json!({"k":"not","f":x}));
+            for y in s {
+                out.push(json!({"k":"and","fs":[x, y]}));
+                out.push(json!({"k":"or","fs":[x, y]}));
+            }
+        }
+        out
+    };
+    let mut l1 = leaves.clone();
+    l1.extend(extra);
+    let mut d1 = l1.clone();
+    d1.extend(comb(&l1));
+    if !depth2 {
+        return d1;
+    }
+    // depth 2 over the three shared-value leaves
+    let mut t1 = leaves.clone();
+    t1.extend(comb(&leaves));
+    let mut d2 = d1;
+    d2.extend(comb(&t1));
+    d2
+}
+fn random_subfam(rng: &mut Rng, depth: u64) -> J {
+    if depth == 0 || rng.chance(1, 4) {
+        return match rng.below(8) {
+            0 | 1 => json!({"k":"sub","a":"a","v":rng.below(2)}),
+            2 | 3 => json!({"k":"stw","a":"a","v":rng.below(3)}),
+            4 | 5 => json!({"k":"enw","a":"a","v":rng.below(3)}),
+            6 => json!({"k":"eq","a":"a","v":rng.range(1, 2)}),
+            _ => json!({"k":"pres","a": if rng.chance(1, 2) {"a"} else {"b"}}),
+        };
+    }
+    match rng.below(5) {
+        0 | 1 => json!({"k":"and","fs":[random_subfam(rng, depth - 1), random_subfam(rng, depth - 1)]}),
+        2 | 3 => json!({"k":"or","fs":[random_subfam(rng, depth - 1), random_subfam(rng, depth - 1)]}),
+        _ => json!({"k":"not","f":random_subfam(rng, depth - 1)}),
+    }
 }
 
 /// all filters of depth<=2 / width<=2 over the 5-leaf alphabet of KFilterMC.LeavesTiny (10015 filters)
@@ -170,6 +276,20 @@ pub fn run(o: &Opts) -> i32 {
                 steps.push((f, 2, None));
             }
         }
+        // the substring family (Cnt / Stw / Enw sharing attribute and value), every filter of depth <= 2: both resolve paths,
+        // raw and under the ignore-hidden wrapper
+        if !o.flag("no-depth1") {
+            for f in subfam(true) {
+                steps.push((f.clone(), 1, Some(mc_all.clone())));
+                // without index metadata only a root AND is sorted and de-duplicated (fast_optimise)
+                if f["k"] == "and" {
+                    steps.push((f.clone(), 1, None));
+                }
+                if f["k"] == "or" {
+                    steps.push((wrap(&f), 1, Some(mc_all.clone())));
+                }
+            }
+        }
         // the complete depth<=2 space of the exhaustive model run (thorough)
         if o.flag("depth2-all") {
             for f in depth2_tiny() {
@@ -182,7 +302,7 @@ pub fn run(o: &Opts) -> i32 {
         let width = o.u64("width", 3);
         for _ in 0..o.u64("random", 0) {
             let d = rng.range(1, depth);
-            let mut f = random_filter(&mut rng, d, width, true);
+            let mut f = if rng.chance(1, 3) { random_subfam(&mut rng, d.min(5)) } else { random_filter(&mut rng, d, width, true) };
             if rng.chance(1, 2) {
                 f = wrap(&f);
             }
@@ -207,6 +327,6 @@ pub fn run(o: &Opts) -> i32 {
         }
     });
     let n = tr.finish();
-    println!("OBSERVED lines={n} out={out}");
+    println!("OBSERVED lines={n} skipped_not_expressible={} out={out}", SKIPPED.load(std::sync::atomic::Ordering::Relaxed));
     0
 }
